@@ -9633,15 +9633,25 @@ bool SoPlexBase<R>::parseSettingsString(char* string)
                          SPX_SET_MAX_LINE_LEN) == 0)
          {
             Real value;
+
+            try
+            {
 #ifdef WITH_LONG_DOUBLE
-            value = std::stold(paramValueString);
+               value = std::stold(paramValueString);
 #else
 #ifdef WITH_FLOAT
-            value = std::stof(paramValueString);
+               value = std::stof(paramValueString);
 #else
-            value = std::stod(paramValueString);
+               value = std::stod(paramValueString);
 #endif
 #endif
+            }
+            catch(const std::exception&)
+            {
+               SPX_MSG_INFO1(spxout, spxout << "Error parsing setting string: invalid value <" << paramValueString
+                             << "> for real parameter <" << paramName << ">.\n");
+               return false;
+            }
 
             if(setRealParam((SoPlexBase<R>::RealParam)param, value))
                break;
